@@ -45,14 +45,14 @@ FinSmall(n) == IsSmallN(n)
 
 \* whole landmarks that are neighbours: LmNext[n] = n + 1 (exact facts about the named constants)
 LmNext == [i16max |-> "i16maxp", u16max |-> "u16maxp", i32max |-> "i32maxp", u32max |-> "u32maxp", f64int |-> "f64intp",
-           i64max |-> "i64maxp", u64max |-> "u64maxp", i16minm |-> "i16min", i32minm |-> "i32min", i64minm |-> "i64min"]
+           i64max |-> "i64maxp", u64max |-> "u64maxp", u64maxp |-> "u64maxpp", i16minm |-> "i16min", i32minm |-> "i32min", i64minm |-> "i64min"]
 LmStep(n, k) ==     \* the landmark n + k for k = 1 / -1, if it is a named landmark
   IF k = 1 /\ n.lm \in DOMAIN LmNext THEN OKV(NumK([lm |-> LmNext[n.lm]]))
   ELSE IF k = -1 /\ (\E m \in DOMAIN LmNext : LmNext[m] = n.lm) THEN OKV(NumK([lm |-> CHOOSE m \in DOMAIN LmNext : LmNext[m] = n.lm]))
   ELSE UNDEF
 \* mantissa bits needed to hold a whole landmark exactly
 LmBits == [i16max |-> 15, i16maxp |-> 1, u16max |-> 16, u16maxp |-> 1, i32max |-> 31, i32maxp |-> 1, u32max |-> 32, u32maxp |-> 1, f64int |-> 1, f64intp |-> 54,
-           i64max |-> 63, i64maxp |-> 1, u64max |-> 64, u64maxp |-> 1, i16minm |-> 16, i16min |-> 1, i32minm |-> 32, i32min |-> 1, i64minm |-> 64, i64min |-> 1]
+           i64max |-> 63, i64maxp |-> 1, u64max |-> 64, u64maxp |-> 1, u64maxpp |-> 65, i16minm |-> 16, i16min |-> 1, i32minm |-> 32, i32min |-> 1, i64minm |-> 64, i64min |-> 1]
 NeedBits(v) == IF v.st = "k" /\ v.ty.k = "number" /\ Has(v.v, "lm") /\ v.v.lm \in DOMAIN LmBits THEN LmBits[v.v.lm] ELSE 24
 IsUnit(n) == Has(n, "q") /\ n.q \in {4, -4}
 BigLm(n) == Has(n, "lm") /\ ~IsSmallN(n)
@@ -256,6 +256,9 @@ ArgTuples(op) ==
          UNION {{<<c, m>> : c \in Vals(t, W), m \in Members_(t.e, W)} : t \in SetT}
     [] op = "Length" -> UNION {{<<c>> : c \in Vals(t, W)} : t \in LenT}
     [] op = "GetAttr" -> UNION {{<<c>> : c \in Vals(t, W)} : t \in ObjT}
+                         \* attribute names whose spelling is normalized / needs quoting: eacute (precomposed), sp (with a space)
+                         \cup {<<MapV(TObj([eacute |-> TNum, a |-> TStr]), [eacute |-> NumV(4), a |-> StrV(<<"a">>)])>>,
+                               <<MapV(TObj([sp |-> TStr]), [sp |-> StrV(<<"b">>)])>>}
     [] OTHER -> {}
 
 EqTypes == IF Thorough THEN VT ELSE PrimTypes \cup VT1 \cup TakeN(VT2, 5)
@@ -280,6 +283,7 @@ IllTyped(op) ==
 XFor(op, a) == IF op = "GetAttr" THEN (IF a[1].ty.k = "object" /\ DOMAIN a[1].ty.as # {} THEN [name |-> CHOOSE n \in DOMAIN a[1].ty.as : TRUE] ELSE [name |-> "a"])
                ELSE [none |-> TRUE]
 XAll(op, a) == IF op = "GetAttr" /\ a[1].ty.k = "object" /\ DOMAIN a[1].ty.as # {} THEN {[name |-> n] : n \in DOMAIN a[1].ty.as}
+                                                                                           \cup (IF "eacute" \in DOMAIN a[1].ty.as THEN {[name |-> "eacute", nfd |-> TRUE]} ELSE {})
                ELSE {XFor(op, a)}
 
 =============================================================================
